@@ -41,6 +41,11 @@ where
         version: TxVersion,
         tx: TxEnv,
     ) -> IncarnationExecution<DB::Error>;
+
+    /// Selects whether the next incarnations validate the transaction nonce. Speculative attempts
+    /// run without the check (the commit thread re-checks against committed state); an attempt
+    /// that starts at the commit head sees final state and validates like in-order execution.
+    fn set_nonce_check(&mut self, _enabled: bool) {}
 }
 
 /// EVM outcome and access metadata produced by one complete incarnation lifecycle.
@@ -113,6 +118,10 @@ where
             Err(_) => self.evm.db_mut().discard_incarnation(),
         };
         IncarnationExecution { result, accesses }
+    }
+
+    fn set_nonce_check(&mut self, enabled: bool) {
+        self.evm.ctx.cfg.disable_nonce_check = !enabled;
     }
 }
 
